@@ -238,7 +238,7 @@ func TestC12_ConfigSampled(t *testing.T) {
 		return // replayed by TestC12_ConfigCross
 	}
 	f := fixtures()
-	rp.Check(t, 6000, 150000, func(rt *rapid.T) {
+	rp.Check(t, 6000, 150000, property(func(rt *rapid.T) {
 		b := f.bases[rapid.IntRange(0, len(f.bases)-1).Draw(rt, "base")]
 		c := &Case{Family: 2, Source: b.Name, Input: b.Env, Cfg: drawCfg(rt, b.Kind, true)}
 		if rapid.IntRange(0, 4).Draw(rt, "invalid") == 0 {
@@ -254,7 +254,7 @@ func TestC12_ConfigSampled(t *testing.T) {
 		}
 		c.Opts = drawOpts(rt, c.Entry, b.Format, 3)
 		runCase(rt, rec, c, "config-cross", "config-sampled", "variant="+b.Variant)
-	})
+	}))
 }
 
 // drawCfg draws a configuration; wide adds the factors the exhaustive cross keeps fixed.
